@@ -576,6 +576,12 @@ func (x *Exec) verify() (err error) {
 		}
 		fr.fnval = fv
 	}
+	if x.ct != nil && x.ct.Ghost != "" {
+		st.nobj++
+		o := &Obj{ID: st.nobj, Kind: objCell, Vals: []Val{{S: "Seq_Node", T: "Seq_Node.empty"}}}
+		st.objs[o.ID] = o
+		fr.vars["trace"] = Val{S: "@addr", A: &Addr{ObjID: o.ID}}
+	}
 	ev := &Env{x: x, st: st, vars: fr.params, pkg: x.pkgOf(fn)}
 	if x.ct != nil {
 		for _, r := range x.ct.Requires {
@@ -602,6 +608,11 @@ func (x *Exec) checkPost(st *State, rs []Val) {
 	vars := map[string]Val{}
 	for k, v := range fr.params {
 		vars[k] = v
+	}
+	for k, v := range fr.vars {
+		if _, ok := vars[k]; !ok {
+			vars[k] = v
+		}
 	}
 	var res []Val
 	sig := x.fn.Signature.Results()
